@@ -6,73 +6,146 @@ ENTRY = {'coq_dir': 'C05',
  'cases': {'quick': 1500, 'thorough': 400000},
  'consts': [],
  'rule': 'TWO STREAMS. (1) Manager stream: adaptive seeded event histories (5-60 events quick, 10-120 thorough) against the real '
-         'TransportManager with a scripted transport: dial requests by peer and by address, address additions, open/negotiate outcomes, '
-         'inbound connections (ids drawn from the shared counter), accept futures, closures, limit configurations from {none,0,1,2,3}; 85% '
-         'follow the transport contract and end with a settle phase (all owed answers delivered, every peer re-dialled), 15% add '
-         'infeasible noise (unknown ids, failing transport calls, failing accepts). 9% of the events are dial_address calls with arbitrary '
-         'multiaddress shapes from the C10 grammar (accepted shapes, missing /p2p, components after the peer id, wrong first/second '
-         "component, ws/quic shapes, the node's own listen address). After every event the transport calls, protocol notifications, "
-         'manager events, return code and a dump of peer states / pending / counted sets are compared with the extracted Coq model. (2) '
-         'TCP transport stream (one case in 10 quick / 400 thorough, first number 9000; harness/src/c05_tcp.rs): the REAL TcpTransport '
-         '(VerifTcpTransport facade) is driven over loopback sockets through its Transport trait and Stream::poll_next with adaptive call '
-         'sequences (5-40 steps quick, 8-70 thorough, max_parallel_dials from {8,1,2,3}): ids drawn from the shared counter, dial, open '
-         'with 0-5 addresses, negotiate (incl. the manager pattern cancel+negotiate without a poll between), cancel before / after '
-         'completion, accept / reject, inbound sockets with accept_pending / reject_pending, polls; 15% of the cases also reuse or invent '
-         'ids. Every address points at a gate (a loopback listener that connects through to one of two further real TcpTransport nodes A, '
-         'B with different identities, holds the bytes and is released by the harness: pass or close), at a closed port, or is malformed, '
-         'and independently NAMES a peer (none, A, B, nobody): listeners that complete the noise/yamux handshake, stall, close at once, or '
-         'answer with a different identity than the address names (on the dial path and on the open+negotiate path, also as the first of '
-         'several addresses); 3% of the cases instead use a 250 ms connection_open_timeout and let a stalled dial, a stalled open and the '
-         'overall open deadline time out. The harness ends one attempt at a time (the completion order of the inner futures is decided by '
-         'construction) and feeds that order to the model as events; after every step the call result, the TransportEvents polled (kind, '
-         'connection id, authenticated peer), the warn/debug lines of the branches of poll_next that drop a future (log tap) and a dump of '
-         'pending_dials / pending_inbound_connections / opened / cancel_futures (with is_aborted) / pending_open and the lengths of the '
-         'two future sets are compared with the extracted Coq model (coq/Tcp). prop_ok of this stream is the transport contract judged on '
-         "the implementation's own trace: open-phase events only for an owed open, outbound ConnectionEstablished / DialFailure only for "
-         'an owed negotiate, ConnectionEstablished names a peer the address of that id names, negotiate succeeds exactly on an opened id, '
-         'no owed answer is dropped, inbound ids come from the shared counter. Non-trivial: trace >= 8 numbers; distinct (case, trace) '
-         'pairs are counted.',
- 'level_text': 'Proof: the dial ledger is an inductive invariant (LInv) of the manager model over every event history the transport '
-               "contract allows and every limit configuration: every pending attempt is owed an answer by the transport and is its peer's "
-               'dial record, ids are fresh, terminal outputs close an attempt for good; consequences proved for all feasible histories: no '
-               'connection id is named by two terminal outputs, at quiescence every accepted attempt has a terminal output or was '
-               'superseded by a reported connection of the same peer or belongs to the recorded finding (limit-rejected outbound '
-               'connection), and no peer is wedged; plus per-handler theorems (re-dial attempted, failure consumes the attempt, limit '
-               'rejection clears the dial record, panics need contradictory ids). The same ledger is evaluated by the extracted oracle on '
-               "the implementation's own traces; the model is tied to manager/mod.rs step by step. The transport contract assumed by that "
-               'invariant is PROVED for a model of TcpTransport (coq/Tcp: the Transport trait methods and poll_next over pending_dials, '
+         'TransportManager with TWO scripted transports (TCP and WebSocket; 70% of the cases install both, the others TCP only '
+         'or WebSocket only) and through the real user-facing TransportManagerHandle: dial requests by peer (manager.dial, and '
+         'handle.dial whose command travels over the real command channel and is executed by next()), by address '
+         '(manager.dial_address, handle.dial_address), address additions (handle.add_known_address) of a tcp and/or a /ws '
+         'address per peer, open outcomes per (connection id, transport) in every order (fail/fail, fail/opened, opened first, '
+         'inbound connection wins while both transports are owed), negotiate outcomes, inbound connections (ids drawn from the '
+         'shared counter), accept futures, closures, limit configurations from {none,0,1,2,3} incl. free outbound capacity 1 '
+         "with both kinds of addresses stored (the implementation's choice of transports is read from the Opening state it "
+         'created, written into the case and validated by the oracle: choice_ok); 85% follow the transport contract (mirrored '
+         'per (id, transport) by the generator) and end with a settle phase (all owed answers delivered, every peer re-dialled), '
+         '15% add infeasible noise (unknown ids, failing open on either or both transports, failing dial/negotiate/accept). 9% '
+         'of the events are dial_address calls with arbitrary multiaddress shapes from the C10 grammar (accepted tcp and ws '
+         "shapes, missing /p2p, components after the peer id, wrong first/second component, quic shapes, the node's own listen "
+         "address, a peer's canonical address). After every event the calls each transport saw (tagged with the transport), "
+         'protocol notifications, manager events (OpenFailure with its error count), return code and a dump of peer states '
+         '(Opening with its transport mask) / address book by kind / pending / counted sets / opening_errors are compared with '
+         'the extracted Coq model. (2) TCP transport stream (one case in 10 quick / 400 thorough, first number 9000; '
+         'harness/src/c05_tcp.rs): the REAL TcpTransport (VerifTcpTransport facade) is driven over loopback sockets through its '
+         'Transport trait and Stream::poll_next with adaptive call sequences (5-40 steps quick, 8-70 thorough, '
+         'max_parallel_dials from {8,1,2,3}): ids drawn from the shared counter, dial, open with 0-5 addresses, negotiate (incl. '
+         'the manager pattern cancel+negotiate without a poll between), cancel before / after completion, accept / reject, '
+         'inbound sockets with accept_pending / reject_pending, polls; 15% of the cases also reuse or invent ids. Every address '
+         'points at a gate (a loopback listener that connects through to one of two further real TcpTransport nodes A, B with '
+         'different identities, holds the bytes and is released by the harness: pass or close), at a closed port, or is '
+         'malformed, and independently NAMES a peer (none, A, B, nobody): listeners that complete the noise/yamux handshake, '
+         'stall, close at once, or answer with a different identity than the address names (on the dial path and on the '
+         'open+negotiate path, also as the first of several addresses); 3% of the cases instead use a 250 ms '
+         'connection_open_timeout and let a stalled dial, a stalled open and the overall open deadline time out. The harness '
+         'ends one attempt at a time (the completion order of the inner futures is decided by construction) and feeds that order '
+         'to the model as events; after every step the call result, the TransportEvents polled (kind, connection id, '
+         'authenticated peer), the warn/debug lines of the branches of poll_next that drop a future (log tap) and a dump of '
+         'pending_dials / pending_inbound_connections / opened / cancel_futures (with is_aborted) / pending_open and the lengths '
+         'of the two future sets are compared with the extracted Coq model (coq/Tcp). prop_ok of this stream is the transport '
+         "contract judged on the implementation's own trace: open-phase events only for an owed open, outbound "
+         'ConnectionEstablished / DialFailure only for an owed negotiate, ConnectionEstablished names a peer the address of that '
+         'id names, negotiate succeeds exactly on an opened id, no owed answer is dropped, inbound ids come from the shared '
+         'counter. Non-trivial: trace >= 8 numbers; distinct (case, trace) pairs are counted.',
+ 'level_text': 'Proof: the dial ledger is an inductive invariant (LInv) of the manager model over every event history the '
+               'transport contract allows and every configuration (limits, installed transports), with dial attempts owed by '
+               "SEVERAL transports in parallel: every pending attempt is owed an answer and is its peer's dial record, the "
+               'transports that still owe an open answer for an id are exactly the transport set of the Opening state '
+               '(non-empty, installed only), ids are fresh, terminal outputs close an attempt for good, the address book holds '
+               'installed kinds only (KInv, inductive over every history); consequences proved for all feasible histories: no '
+               'connection id is named by two terminal outputs, at quiescence every accepted attempt has a terminal output or '
+               'was superseded by a reported connection of the same peer or belongs to the recorded finding (limit-rejected '
+               'outbound connection), no peer is wedged, no panic site is reached; OpenFailure is reported exactly by the '
+               'failure of the last transport of the set (with the accumulated error count) and a non-last failure is silent and '
+               'keeps the attempt owed; ConnectionOpened cancels on every transport of the set, negotiates on the winner only '
+               'and ends the open phase; an inbound connection cancels on all transports and leaves nothing owed; the handle '
+               'gate (TransportManagerHandle::dial / dial_address) is sound and agrees with the manager on the same state, the '
+               'only refusal of a queued command being the connection limit (finding class 2); plus per-handler theorems '
+               '(re-dial attempted on every transport of any allowed choice, failure consumes the attempt, limit rejection '
+               'clears the dial record, panics need contradictory ids or an uninstalled transport in an Opening set, which the '
+               'invariant excludes; C05_uninstalled_transport_refuted shows what would happen otherwise). The same ledger is '
+               "evaluated by the extracted oracle on the implementation's own traces; the model is tied to "
+               'manager/{mod,peer_state,limits,handle}.rs step by step. The transport contract assumed by that invariant is '
+               'PROVED for a model of TcpTransport (coq/Tcp: the Transport trait methods and poll_next over pending_dials, '
                'pending_raw_connections + cancel_futures/is_aborted, opened, pending_connections, pending_inbound_connections, '
-               'pending_open, plus the futures built by dial/open: per-address attempts carrying the peer the address names, first success '
-               'wins, Failed when none is left) for every history of calls and future completions: (a) ConnectionOpened/OpenFailure only '
-               'for an owed open (needs an earlier open(c), at most once, never after cancel(c)) for ANY owner; (b) outbound '
-               'ConnectionEstablished/DialFailure only for an owed dial/negotiate, at most once; (c) open and well-formed dial succeed, '
-               'negotiate(c) succeeds exactly when ConnectionOpened c was emitted and not negotiated since; (d) every completed future of '
-               'an un-cancelled call is answered by the poll that observes it: the silent branches of poll_next (two "raw connection '
-               'without a cancel handle", the foreign is_aborted handle, a dial failing without a pending_dials entry) are unreachable, '
-               'what is owed is backed by a pending future; (e) ids: outbound ids come from the owner, inbound ids are the next counter '
-               'value; identity: an outbound ConnectionEstablished names a peer the addresses of that id name (an answer by another '
-               "identity ends in a failure). (b), (d), (e) assume the owner's hygiene caller_ok (ids passed to dial/open were drawn from "
-               'the shared counter and are used once), shown necessary by a witness. That model is tied to tcp/mod.rs by the TCP stream.',
- 'level_note': 'Trusted: Coq kernel, extraction, harness + ScriptedTransport hook. Transport contract `feas` (calls succeed, each is '
-               'answered once unless cancelled, cancel is effective, the reported peer is the dialled one): no longer an assumption for '
-               'TCP, it is proved for the model coq/Tcp and tied to tcp/mod.rs by the TCP stream; still assumed there: the negotiation '
-               '(connection.rs negotiate_connection) authenticates the remote and honours its dialed_peer argument (exercised with real '
-               'handshakes, not modelled), timeouts fire (connection_open_timeout / the dial deadline are the model events "attempt '
-               'failed" / EExpire; 3% of the TCP cases and corpus/C05/tcp_timeouts.case run with a 250 ms timeout and end one future at a '
-               'time by waiting, all other cases use 60 s timeouts that never fire), tokio wakes ready futures, the OS delivers socket '
-               'events, the listener does not terminate; the composition of the TCP model with the manager model (caller_ok is what the '
-               'manager does: ids come from next_connection_id, li_fresh) is stated, not proved; "accept futures succeed" is still an '
-               "assumption; websocket / quic: contract still by reading; one transport (TCP) only; the address book is abstracted to 'has "
-               "an address' (scores are C10); `.await` on full protocol channels inside the DialFailure fan-out is not modelled.",
- 'trusted_base': ['transport contract of the feasible manager stream: open/dial/negotiate calls succeed, each is answered once unless '
-                  'cancelled, the reported peer is the dialled one: for TCP proved for the model coq/Tcp (C05_tcp_* theorems) and tied to '
-                  'the code by the TCP stream; what remains trusted for TCP: noise/yamux negotiation authenticates the remote and compares '
-                  'it with dialed_peer, timeouts fire, tokio, the OS; accept futures succeed (assumed)',
-                  'owner hygiene caller_ok of the TCP theorems (ids passed to dial/open were drawn from the shared counter, each used '
-                  'once) is what TransportManager does (next_connection_id; li_fresh in LInv); the composition of the two models is not '
-                  'proved',
+               'pending_open, plus the futures built by dial/open: per-address attempts carrying the peer the address names, '
+               'first success wins, Failed when none is left) for every history of calls and future completions: (a) '
+               'ConnectionOpened/OpenFailure only for an owed open (needs an earlier open(c), at most once, never after '
+               'cancel(c)) for ANY owner; (b) outbound ConnectionEstablished/DialFailure only for an owed dial/negotiate, at '
+               'most once; (c) open and well-formed dial succeed, negotiate(c) succeeds exactly when ConnectionOpened c was '
+               'emitted and not negotiated since; (d) every completed future of an un-cancelled call is answered by the poll '
+               'that observes it: the silent branches of poll_next (two "raw connection without a cancel handle", the foreign '
+               'is_aborted handle, a dial failing without a pending_dials entry) are unreachable, what is owed is backed by a '
+               'pending future; (e) ids: outbound ids come from the owner, inbound ids are the next counter value; identity: an '
+               'outbound ConnectionEstablished names a peer the addresses of that id name (an answer by another identity ends in '
+               "a failure). (b), (d), (e) assume the owner's hygiene caller_ok (ids passed to dial/open were drawn from the "
+               'shared counter and are used once), shown necessary by a witness. That model is tied to tcp/mod.rs by the TCP '
+               'stream. COMPOSITION (coq/C05/TcpCompose.v, theorems C05_sys_*): the manager model and the TcpTransport model are '
+               'plugged into each other — every call the manager model makes (open with the addresses of the dialled peer, dial, '
+               'negotiate, cancel, accept, reject, accept_pending, reject_pending, and next_connection_id as a draw from the '
+               'shared counter) is executed by the TCP model, every event a poll of the TCP model emits is handled by the '
+               'manager model one after the other (its calls executed before the next event is handled; the negotiate / accept '
+               "results the handlers see are the TCP model's), with TCP as the one installed transport. For EVERY history of "
+               'outside inputs (user / protocol side: dial requests by peer and by address incl. through the handle, address '
+               'additions, closed connections, accept futures; network / runtime: a socket arrives, an attempt of a pending '
+               'future ends with an identity or fails, a deadline fires, a poll) the manager is handed an event history that '
+               'satisfies the transport contract `feas` (C05_sys_feasible, C05_sys_step; proof: a coupling invariant between the '
+               "manager's ledger and the ledger of the TCP contract — what the manager thinks TCP owes is what TCP's ledger "
+               'says, same peer named, same counter — kept while the events of one poll are delivered one by one, using the '
+               "C05_tcp contract theorems, commutation of the manager's calls with the events not delivered yet, and the shape "
+               'of a poll: events about inbound sockets come last). Hence C05_sys_at_most_one_outcome, C05_sys_no_silence, '
+               'C05_sys_no_wedge, C05_sys_no_stuck hold for manager + TCP together with NO assumption about the transport; what '
+               'is still assumed is only the part of `feas` about the address store (choice_ok), the protocols (accept futures '
+               'succeed) and that open() / dial() of a shape-checked address return Ok (true in the TCP model). The network '
+               "assumption is explicit: quiescence is a statement about the TCP model's own ledger (C05_sys_quiescent), whatever "
+               'the manager waits for is backed by a pending un-cancelled future of the TCP model (C05_sys_owed_is_pending), and '
+               'for each such id there is an allowed network / runtime input — the deadline of the open fires, the dial attempt '
+               'ends, the transport is polled — whose handling hands the manager an answer for that id (C05_sys_progress): the '
+               'only liveness assumption left is that the network lets every pending future end (answer, failure or timeout) and '
+               'the runtime polls the transport.',
+ 'level_note': 'Trusted: Coq kernel, extraction, harness + ScriptedTransport hooks. Transport contract `feas` (calls succeed, '
+               'each open is answered once per transport unless cancelled on it, cancel is effective, accept futures succeed, '
+               'events come from installed transports) is an assumption of the C05 ledger theorems for WebSocket; for TCP it is '
+               'a theorem (see below); two of the three transports (TCP, WebSocket) are installed, QUIC is compiled out of the '
+               'harness build; the address book is abstracted to the set of stored addresses (which of them '
+               'AddressStore::addresses(limit) hands out is an input validated by choice_ok; scores are C10; fewer than 64 '
+               'addresses per peer so that no eviction happens); the handle call and the execution of its command happen in one '
+               'step (the asynchronous gap between them is not modelled: C05_handle_gate_agrees is about the same state); '
+               'ChannelClogged is modelled as a possible result (clog) but never driven; `.await` on full protocol channels '
+               'inside the DialFailure fan-out is not modelled. For TCP the contract is no longer an assumption, it is proved '
+               'for the model coq/Tcp and tied to tcp/mod.rs by the TCP stream; still assumed there: the negotiation '
+               '(connection.rs negotiate_connection) authenticates the remote and honours its dialed_peer argument (exercised '
+               'with real handshakes, not modelled), timeouts fire (connection_open_timeout / the dial deadline are the model '
+               'events "attempt failed" / EExpire; 3% of the TCP cases and corpus/C05/tcp_timeouts.case run with a 250 ms '
+               'timeout and end one future at a time by waiting, all other cases use 60 s timeouts that never fire), tokio wakes '
+               'ready futures, the OS delivers socket events, the listener does not terminate; the composition of the TCP model '
+               'with the manager model is PROVED (C05_sys_*) for configurations with TCP as the only installed transport; in it '
+               'the owner hygiene caller_ok of the TCP theorems is discharged (the manager draws every id it passes to open / '
+               'dial from the shared counter right before the call, at most one such call per step: Mgr/Calls.v), the glue is '
+               'part of the statement: all addresses of one open / dial call name the dialled peer (every stored address ends in '
+               "/p2p/<peer>; C10), a dial address that passed the manager's shape check parses in TCP (valid = true), a failure "
+               "event carries an address of the call (the peer is read from the TCP ledger's g_att), one poll = poll_next until "
+               'Pending with the manager handling the batch in order (the granularity at which the TCP model is tied to '
+               'tcp/mod.rs); for a second transport (WebSocket) the contract stays the assumption `feas`; "accept futures '
+               'succeed" is still an assumption; WebSocket / quic: contract still by reading.',
+ 'trusted_base': ['transport contract of the feasible manager stream: open/dial/negotiate calls succeed, each is answered once '
+                  'unless cancelled, the reported peer is the dialled one: for TCP proved for the model coq/Tcp (C05_tcp_* '
+                  'theorems) and tied to the code by the TCP stream; what remains trusted for TCP: noise/yamux negotiation '
+                  'authenticates the remote and compares it with dialed_peer, timeouts fire, tokio, the OS; accept futures '
+                  'succeed (assumed)',
+                  'composition manager + TCP (C05_sys_*): proved for the two MODELS; the glue between them (which calls are '
+                  'forwarded, what an event looks like to the manager, the shared counter) is a definition in '
+                  'coq/C05/TcpCompose.v checked by a concrete composed history (C05_sys_history), not by a separate harness '
+                  'stream: each model is tied to its code separately (manager stream with scripted transports, TCP stream with '
+                  'the real TcpTransport); remaining assumptions there: choice_ok (address store), accept futures succeed '
+                  '(protocols alive, C07), network liveness (every pending future ends or times out, the transport is polled)',
                   'connection ids: inbound ids are drawn from the counter shared with the manager (AllocConn event / '
-                  'verif_alloc_connection_id hook)'],
- 'assumptions': ['single installed transport (default cargo features of the harness build)',
+                  'verif_alloc_connection_id hook)',
+                  'the invariant "only installed kinds are stored" (KInv) is proved for add_known_address (supported_transport '
+                  'filter) and dial_address (shape + installed check); for addresses REPORTED by transports (DialFailure / '
+                  'OpenFailure / ConnectionOpened / ConnectionEstablished) it rests on the harness: a scripted transport only '
+                  'reports the canonical address of its own kind (a real transport reports the addresses it was handed by the '
+                  'manager)',
+                  'TransportManagerHandle: the ChannelClogged / TaskClosed results of try_send are not driven by the harness '
+                  '(the channel never fills: every command is executed in the step that queued it)'],
+ 'assumptions': ['two installed transports at most (TCP, WebSocket: cargo feature websocket on, quic off in the harness build)',
                  'debug build: a reachable debug_assert!(false) shows up as a panic',
+                 'fewer than MAX_ADDRESSES (64) distinct addresses per peer (no eviction from the address store; at most 40 '
+                 'dial_address shapes per case)',
                  'TCP stream: loopback sockets; a completion that does not show up within 20 s is recorded as a missing answer']}
